@@ -135,6 +135,12 @@ def run(tier):
                 cfg['keywords'] = g['keywords']
             items.append({'g': g, 'texts': texts, 'label': f'{kind}/{sname}', 'cfg': cfg, 'settings': settings, 'kind': kind,
                           'start': kind.split(':')[1] if kind.startswith('kwstart:') else 's'})
+    # the constructs the documentation defines by expansion (>rule, name < base, @override): the source text goes to both back-ends,
+    # the expanded abstract grammar to the specification
+    from .c01 import expansions
+    xtexts = all_texts(['a', 'b', 'c', ' '], 3) + [list(t) for t in ['a b c', 'abbc', 'a c', 'bbbc', 'aabb', 'b a c', 'a bc']]
+    for src, g in expansions():
+        items.append({'g': g, 'src': src, 'texts': xtexts, 'label': 'expansion/defaults', 'cfg': {}, 'settings': {}, 'kind': 'expansion'})
     agree = {'n': 0, 'bad': 0}
 
     def classify(it, text, so, ir, why):
@@ -149,7 +155,7 @@ def run(tier):
     jobs, cases = Jobs(), []
     for it in items:
         jobs.add(it['g'], make_cfg(chars_of(it['g'], it['texts']), **it['cfg']), it['texts'], start=it.get('start', 's'))
-        cases.append(default_case(to_ebnf(it['g']), it['texts'], settings=it['settings'], start=it.get('start', 's'),
+        cases.append(default_case(it.get('src') or to_ebnf(it['g']), it['texts'], settings=it['settings'], start=it.get('start', 's'),
                                   wrap=it.get('start', 's') == 's'))
     r, spec = run_oracle(jobs)
     ck.add_tlc(r, 'PegSemBatch')
